@@ -228,6 +228,23 @@ Proof.
   rewrite (proj1 (forallb_forall _ _) Hf e He). reflexivity.
 Qed.
 
+Lemma srun_lf W H lm top s : 0 <= lm -> clean s -> top <= row s < top + H -> lm <= W ->
+  srun W H lm top s [TLF] = Some (Z.max top (row s + 2 - H)).
+Proof.
+  intros Hlm Hcl Hr HlmW. cbn [srun scrolls]. replace (parser s) with Ground by (symmetry; apply Hcl).
+  unfold step_evs. replace (parser s) with Ground by (symmetry; apply Hcl).
+  cbn [ground_evs forallb ev_win ev_inside].
+  destruct (row s =? top + H - 1) eqn:Eb.
+  - apply Z.eqb_eq in Eb.
+    replace ((top + 1 <=? row s + 1) && (row s + 1 <? top + 1 + H) && (0 <=? lm) && (lm <=? 0 + W) && true)
+      with true by (symmetry; rewrite !andb_true_iff, !Z.leb_le, !Z.ltb_lt; lia).
+    f_equal. lia.
+  - apply Z.eqb_neq in Eb.
+    replace ((top <=? row s + 1) && (row s + 1 <? top + H) && (0 <=? lm) && (lm <=? 0 + W) && true)
+      with true by (symmetry; rewrite !andb_true_iff, !Z.leb_le, !Z.ltb_lt; lia).
+    f_equal. lia.
+Qed.
+
 (** ** the first (padded) frame: the only write that may scroll *)
 Section Box.
 Variables W H lm : Z.
@@ -369,7 +386,7 @@ Lemma later_frame_step ls s ra :
   exists Ec, forallb (ev_inside ra ca h w) Ec = true /\
     exec lm s (later_frame pl h clear (joinlf ls)) =
     mk ra ca adefault s (Ec ++ ip_evs lm pl ra ls ++ goto_evs lm (ra + h - 1) (h - 1) pl).
-Proof using Hpl HC.
+Proof.
   intros HLR Hok. pose proof (lr_w _ _ _ _ HLR) as Hw. pose proof (lr_len _ _ _ _ HLR) as Hlen.
   assert (Hh : 0 < h) by (pose proof (lr_ne _ _ _ _ HLR); destruct ls; [congruence|cbn [length] in Hlen; lia]).
   destruct (HC lm s ra ca Hok) as (Ec & E1 & Hin). exists Ec. split; [exact Hin|].
@@ -408,7 +425,7 @@ Theorem later_frames_inv : forall lss s ra,
     /\ (forall r c acc, ra <= r < ra + h -> ca <= c < ca + w ->
           lastcov_from acc EV r c =
           match lastopt lss with None => acc | Some lsn => lastcov (flat ca ra lsn) r c end).
-Proof using Hpl HC.
+Proof.
   induction lss as [|ls rest IH]; intros s ra HF Hok.
   - exists []. cbn. split; [destruct Hok as (_ & Hs & Hr & Hc); rewrite <- Hs, <- Hr, <- Hc; symmetry; apply mk_id|].
     split; [reflexivity|]. split; [discriminate|reflexivity].
@@ -639,28 +656,40 @@ Proof.
   intros r c Hr Hcc. rewrite (ref_evs t0 (row t0) Hok). apply Hc; assumption.
 Qed.
 
-Lemma srun_lf top s : clean s -> top <= row s < top + H -> lm <= W ->
-  srun W H lm top s [TLF] = Some (Z.max top (row s + 2 - H)).
-Proof using Type.
-  intros Hcl Hr HlmW. cbn [srun scrolls]. replace (parser s) with Ground by (symmetry; apply Hcl).
-  unfold step_evs. replace (parser s) with Ground by (symmetry; apply Hcl).
-  cbn [ground_evs forallb ev_win ev_inside].
-  destruct (row s =? top + H - 1) eqn:Eb.
-  - apply Z.eqb_eq in Eb.
-    replace ((top + 1 <=? row s + 1) && (row s + 1 <? top + 1 + H) && (0 <=? lm) && (lm <=? 0 + W) && true)
-      with true by (symmetry; rewrite !andb_true_iff, !Z.leb_le, !Z.ltb_lt; lia).
-    f_equal. lia.
-  - apply Z.eqb_neq in Eb.
-    replace ((top <=? row s + 1) && (row s + 1 <? top + H) && (0 <=? lm) && (lm <=? 0 + W) && true)
-      with true by (symmetry; rewrite !andb_true_iff, !Z.leb_le, !Z.ltb_lt; lia).
-    f_equal. lia.
+
+End New.
+
+Section Still.
+Variables W H lm : Z.
+Variable fill : option glyph.
+Variables w h pl pt pr pb : Z.
+Hypothesis Hpl : 0 <= pl.
+Hypothesis Hpt : 0 <= pt.
+Hypothesis Hpr : 0 <= pr.
+Hypothesis Hpb : 0 <= pb.
+Hypothesis Hlm : 0 <= lm.
+Let pw := pl + w + pr.
+Let ph := pt + h + pb.
+Hypothesis HW : lm + pw <= W.
+Hypothesis HH : ph <= H.
+Variable ls1 : list (list tok).
+Hypothesis HLR1 : LinesRect all_cells w h ls1.
+Hypothesis HD1 : forall ln, In ln ls1 -> Downward ln.
+Let d := (pl, pt, pr, pb).
+Let PL1 := pad_lines fill d w ls1.
+Let P1 := padded fill d w h (joinlf ls1).
+
+Lemma Hh_pos' : 0 < h.
+Proof.
+  pose proof (lr_len _ _ _ _ HLR1) as Hlen. pose proof (lr_ne _ _ _ _ HLR1).
+  destruct ls1; [congruence|cbn [length] in Hlen; lia].
 Qed.
 
 (** MAIN (new API, still frame) *)
 Theorem draw_still_final t0 top0 hide :
   okat t0 (row t0) lm -> top0 <= row t0 < top0 + H ->
   DrawFinal W H lm top0 t0 hide pw ph P1 (still_stream hide P1).
-Proof using Hpl Hpt Hpr Hpb Hlm HW HH HLR1 HD1.
+Proof.
   intros Hok Htop. unfold still_stream, P1, d.
   rewrite padded_is_pad by assumption. fold d.
   set (P := pad fill d w (joinlf ls1)).
@@ -677,15 +706,15 @@ Proof using Hpl Hpt Hpr Hpb Hlm HW HH HLR1 HD1.
   destruct (first_box lm fill w h pl pt pr pb Hpl Hpt Hpr Hpb ls1 HLR1 s0 r0 Hok0) as [E1 Hin1].
   pose proof (first_box_scroll W H lm fill w h pl pt pr pb Hpl Hpt Hpr Hpb Hlm HW HH ls1 HLR1 s0 r0 top0 HD1 Hok0 Htop) as S1.
   fold d PL1 pw ph in E1, Hin1, S1. fold P in E1, S1.
-  pose proof (lr_w _ _ _ _ HLR1) as Hw. pose proof Hh_pos as Hh.
+  pose proof (lr_w _ _ _ _ HLR1) as Hw. pose proof Hh_pos' as Hh.
   exists (jl_evs lm r0 PL1 ++ [EMove (r0 + ph) lm]). split; [|split; [|split]].
   - rewrite exec_app, E1. cbn [exec fold_left]. rewrite step_lf by apply Hcl. rewrite mk_mk.
     cbn [row mk]. replace (r0 + ph - 1 + 1) with (r0 + ph) by lia. reflexivity.
-  - rewrite srun_app, S1, E1. rewrite srun_lf; [|apply Hcl|cbn [row mk]; unfold ph in *; lia|unfold pw in *; lia].
+  - rewrite srun_app, S1, E1. rewrite (srun_lf W H lm); [|exact Hlm|apply Hcl|cbn [row mk]; unfold ph in *; lia|unfold pw in *; lia].
     cbn [row mk]. f_equal. lia.
   - rewrite forallb_app, andb_true_iff. split; [apply box_or_below_of_inside, Hin1|].
     cbn [forallb]. unfold ev_box_or_below. rewrite !Z.eqb_refl. cbn. rewrite orb_true_r. reflexivity.
   - intros r c Hr Hc. rewrite Eref. apply lastcov_app_none. reflexivity.
 Qed.
 
-End New.
+End Still.
